@@ -61,3 +61,30 @@ Qed.
 Example small_tables_check_refuses :
   small_tables_check (map s ["al"; "nv"]%string) [] [] [] = false.
 Proof. vm_compute. reflexivity. Qed.
+
+(* ------------------------------------------------------------------ two more tables over their whole domain (harness DS2): the size words in front of an x86 memory
+   operand for every size 0..255, and the AArch64 vector register text for every element type 0..7 on a 64-bit / 128-bit vector register *)
+Definition model_size_prefix (k : Z) : text := render (size_toks k).
+Definition model_vec (t : a64rt) (et : Z) : text := a64_reg_text t 3 et.
+
+Definition small_tables_check2 (sizes v64 v128 : list text) : bool :=
+  check_from model_size_prefix 0 sizes && check_from (model_vec AVec64) 0 v64 && check_from (model_vec AVec128) 0 v128
+  && Nat.eqb (length sizes) 256 && Nat.eqb (length v64) 8 && Nat.eqb (length v128) 8.
+
+Theorem small_tables2_sound sizes v64 v128 : small_tables_check2 sizes v64 v128 = true ->
+  (forall k x, nth_error sizes k = Some x -> render (size_toks (Z.of_nat k)) = x) /\
+  (forall k x, nth_error v64 k = Some x -> a64_reg_text AVec64 3 (Z.of_nat k) = x) /\
+  (forall k x, nth_error v128 k = Some x -> a64_reg_text AVec128 3 (Z.of_nat k) = x) /\
+  length sizes = 256%nat /\ length v64 = 8%nat /\ length v128 = 8%nat.
+Proof.
+  unfold small_tables_check2. intros H.
+  apply andb_prop in H as [H L3]. apply andb_prop in H as [H L2]. apply andb_prop in H as [H L1].
+  apply andb_prop in H as [H C3]. apply andb_prop in H as [C1 C2].
+  split; [intros k x N; exact (check_from_sound model_size_prefix sizes 0 k x C1 N)|].
+  split; [intros k x N; exact (check_from_sound (model_vec AVec64) v64 0 k x C2 N)|].
+  split; [intros k x N; exact (check_from_sound (model_vec AVec128) v128 0 k x C3 N)|].
+  repeat split; apply Nat.eqb_eq; assumption.
+Qed.
+
+Example ex_model_tables2 : model_size_prefix 16 = s "xmmword ptr " /\ model_size_prefix 3 = [] /\ model_vec AVec128 3 = s "v3.4s" /\ model_vec AVec64 3 = s "v3.2s".
+Proof. repeat split; vm_compute; reflexivity. Qed.
